@@ -278,7 +278,28 @@ def _run(spec, scenario, cfgkw, fs_fault, cancel_at, cancel_how, keep_tmp, sampl
         r.live_buffers = live
         if sample:
             sample(r, s)
-    with scaled_adjuster(utils, 1, 1000, 1000):
+    import contextlib
+
+    @contextlib.contextmanager
+    def scaled_aggregator(thr):
+        """The upload progress aggregator batches reports below 256 KiB; scheduled runs move a
+        few bytes, so the threshold is scaled down (its default argument) for the run."""
+        if thr is None:
+            yield
+            return
+        from s3transfer import upload
+        f = upload.AggregatedProgressCallback.__init__
+        saved = f.__defaults__
+        if not saved or len(saved) != 1:
+            yield                      # the signature changed: leave it alone
+            return
+        f.__defaults__ = (thr,)
+        try:
+            yield
+        finally:
+            f.__defaults__ = saved
+    scen.PROGRESS_YIELD[0] = bool(spec.get('progress_yield'))
+    with scaled_adjuster(utils, 1, 1000, 1000), scaled_aggregator(spec.get('agg_threshold')):
         r = scen.run_scenario(scenario, chooser=make_chooser(spec.get('chooser')), config_kwargs=cfgkw,
                               fs_fault=fs_fault, cancel_at=cancel_at,
                               cancel_how=cancel_how or 'future', keep_tmp=keep_tmp,
